@@ -85,9 +85,20 @@ def _conv(loader, node):
     fl = {}
     if custom:
         if tag in ('!clear', '!required', '!null'):
-            if not (isinstance(node, pyyaml.ScalarNode) and node.value == ''):
+            if not (isinstance(node, pyyaml.ScalarNode) and node.value == '' and node.style is None):
                 raise Unsupported(tag + ' with a value')
             return SP(tag[1:]) if tag != '!null' else S(None)
+        if tag == '!prev':
+            if not isinstance(node, pyyaml.ScalarNode):
+                raise Unsupported('!prev with a non-scalar')
+            return SP('prev', path=node.value)
+        if tag in ('!append', '!extend'):
+            if isinstance(node, pyyaml.SequenceNode):
+                return SP(tag[1:], args=L([_conv(loader, c) for c in node.value]))
+            if isinstance(node, pyyaml.ScalarNode):
+                plain = node.style is None
+                return SP(tag[1:], args=L([S(_scalar(loader, node, loader.resolve(pyyaml.ScalarNode, node.value, (plain, not plain))))]))
+            raise Unsupported(tag + ' with a mapping')
         fl = _flags(tag)
         if fl is None:
             raise Unsupported('tag ' + tag)
@@ -151,7 +162,7 @@ def calibrate(dirs, run_model, min_used=5):
             continue
         used += 1
         if fx['error'].strip():
-            want = fx['error'].strip().split('\n')[0].strip()
+            want = fx['error'].strip().split('\n')[0].strip().split('.')[-1]
             if got[0] != 'err' or got[1] != want:
                 bad.append(f'{name}: fixture expects {want}, model says {got}')
         elif fx['expected'].strip() and fx['expected'].strip() != 'skip':
